@@ -250,3 +250,54 @@ Definition dval (s : list byte) : N := dval_acc 0 s.
 (* "18446744073709551615" *)
 Definition str_max : list byte :=
   [x31;x38;x34;x34;x36;x37;x34;x34;x30;x37;x33;x37;x30;x39;x35;x35;x31;x36;x31;x35].
+
+(* ------------------------------------------------------------------ server: ServeHTTP over the life of ONE connection
+
+   h3sHandler is per QUIC connection; every POST /auth on it runs the auth branch under authMutex, so the requests
+   of a connection are served one after the other.  The state that matters: h.authenticated, the controller that
+   sits on the quic.Conn, and what the application was told so far.
+
+     if h.authenticated.Load() {            // Already authenticated
+         AuthResponseToHeader(... MaxRx, IgnoreClientBandwidth); w.WriteHeader(StatusAuthOK); return }
+     authReq := AuthRequestFromHeader(r.Header); ok, id := Authenticate(..., authReq.Rx)
+     if ok { authenticated = true; <negotiate, install>; <response>; EventLogger.Connect(actualTx) }
+     else  { masqHandler }                                                                            *)
+
+Record conn_state := mkConn {
+  cs_auth : bool;                (* h.authenticated *)
+  cs_installed : installed;      (* the controller on the connection; IDefault = quic-go's own *)
+  cs_connects : list N;          (* tx of every EventLogger.Connect so far, oldest first *)
+  cs_authcalls : list N }.       (* tx of every Authenticator.Authenticate so far, oldest first *)
+
+Definition conn_init : conn_state := mkConn false IDefault [] [].
+
+(* one POST /auth: the Hysteria-CC-RX values it carries and what the Authenticator says to its credentials *)
+Definition auth_req := (list (list byte) * bool)%type.
+
+Inductive reply := R233 (r : auth_resp) | RMasq.
+
+(* SetCongestionControl replaces the controller; UseConfigured(reno) installs nothing (IDefault): the old one stays *)
+Definition set_cc (prev i : installed) : installed :=
+  match i with IDefault => prev | _ => i end.
+
+Definition serve_auth (c : server_cfg) (st : conn_state) (rq : auth_req) : conn_state * reply :=
+  if cs_auth st then
+    (st, R233 (mkResp (s_max_rx c) (s_ignore c)))
+  else
+    let so := server_auth c (fst rq) in
+    if snd rq then
+      (mkConn true (set_cc (cs_installed st) (so_installed so)) (cs_connects st ++ [so_connect_tx so])
+              (cs_authcalls st ++ [so_auth_tx so]),
+       R233 (so_resp so))
+    else
+      (mkConn false (cs_installed st) (cs_connects st) (cs_authcalls st ++ [so_auth_tx so]), RMasq).
+
+(* the requests of a connection in the order the handler serves them; the state after each is recorded *)
+Fixpoint serve_run (c : server_cfg) (st : conn_state) (rqs : list auth_req) : conn_state * list (reply * installed) :=
+  match rqs with
+  | [] => (st, [])
+  | rq :: t =>
+      let (st1, rp) := serve_auth c st rq in
+      let (st2, rps) := serve_run c st1 t in
+      (st2, (rp, cs_installed st1) :: rps)
+  end.
